@@ -82,6 +82,42 @@ def strip_layout(s):
     return ''.join(ch for ch in s if ch not in LAYOUT_CHARS)
 
 
+def leaf_list(tree, out=None):
+    out = [] if out is None else out
+    kind, x = tree
+    if isinstance(x, list):
+        for c in x:
+            leaf_list(c, out)
+    else:
+        out.append((kind, x))
+    return out
+
+
+def redundant_colons(tree):
+    """number of dictionaries written `(: k: v ..)`: the leading colon is redundant when a named / keyed pair follows and may be dropped"""
+    kind, x = tree
+    if not isinstance(x, list):
+        return 0
+    n = sum(redundant_colons(c) for c in x)
+    if kind == 'Dict' and any(c[0] in ('Named', 'Keyed') for c in x):
+        sig = [c for c in x if c[0] not in ('Space', 'LineComment', 'BlockComment')]
+        if len(sig) > 1 and sig[0][0] == 'LeftParen' and sig[1][0] == 'Colon':
+            n += 1
+    return n
+
+
+def expected_streams(tree):
+    """(token stream without comments and layout characters, list of comment texts) of a parsed shape"""
+    toks = ''
+    cmts = []
+    for kind, text in leaf_list(tree):
+        if kind in ('LineComment', 'BlockComment'):
+            cmts.append(strip_layout(text))
+        else:
+            toks += strip_layout(text)
+    return toks, cmts
+
+
 def collect_shapes(S, max_nodes, per_kind):
     files = sorted(glob.glob(os.path.join(REPO, 'tests/fixtures/**/*.typ'), recursive=True))
     if os.path.exists(EXTRA_CORPUS):
@@ -107,7 +143,7 @@ def collect_shapes(S, max_nodes, per_kind):
     return out, len(files)
 
 
-def explore(S, want=('C06',), per_kind=10, max_nodes=14):
+def explore(S, want=('C06',), per_kind=10, max_nodes=14, deep=False):
     kt = T.KT
     core = S.core
     f_expr = S.find_fn(core, 'PrettyPrinter::convert_expr')
@@ -136,9 +172,13 @@ def explore(S, want=('C06',), per_kind=10, max_nodes=14):
                         return D.opaque_doc('sub', (nd.nid,))
                     return f
                 cw = z3.BitVec('chain_width', 64)
-                m = S.machine(core, STD, ctx, overrides={'convert_expr': nested('convert_expr'), 'convert_pattern': nested('convert_pattern'),
-                                                         'convert_markup_impl': nested('convert_markup_impl'), 'convert_markup': nested('convert_markup'),
-                                                         'chain_width': (lambda mm, a, ci: cw)})
+                ov = {'chain_width': (lambda mm, a, ci: cw)}
+                if not deep:
+                    ov.update({'convert_expr': nested('convert_expr'), 'convert_pattern': nested('convert_pattern'),
+                               'convert_markup_impl': nested('convert_markup_impl'), 'convert_markup': nested('convert_markup')})
+                m = S.machine(core, STD, ctx, overrides=ov)
+                if deep:
+                    m.max_depth = 200
                 root = build(tree, kt)
                 attrs = m.call_fn(f_attr, [root])
                 cfg = Agg('Config', None, (z3.BitVec('cfg_tab', 64), z3.BitVec('cfg_width', 64), 2, False), pp.CFG_NAMES)   # import reordering is C19's subject
@@ -161,27 +201,28 @@ def explore(S, want=('C06',), per_kind=10, max_nodes=14):
                     for c in n.children:
                         reg_nodes(c)
                 reg_nodes(root)
-                expected = strip_layout(src_text)
-                # a dictionary that holds a named or keyed pair may drop its redundant leading colon `(:`
-                optional_colon = tree[0] == 'Dict' and any(c[0] in ('Named', 'Keyed') for c in tree[1])
-                if optional_colon and expected.startswith(':'):
-                    expected = expected[1:]
+                # tokens and comments are compared separately: a comment may move across a token of its own construct
+                # (`not /* c */ in` -> `/* c */ not in`), which changes neither the tree nor the order of the comments
+                exp_toks, exp_cmts = expected_streams(tree)
+                ncolon = redundant_colons(tree)
+                expected = (exp_toks, exp_cmts)
                 for mode, at in atoms_modes(d).items():
-                    got = ''
+                    full = ''
                     for a in at:
                         if a[0] == 't':
-                            got += a[1].concrete() if a[1].is_concrete() else '�'
+                            full += strip_layout(a[1].concrete() if a[1].is_concrete() else '�')
                         elif a[0] == 'o':
                             nd = index.get(a[2][0]) if a[2] else None
-                            got += nd.into_text().concrete() if nd is not None else '�'
-                    got = strip_layout(got)
-                    if optional_colon and got.startswith(':'):
-                        got = got[1:]
-                    ctx.must_hold(got == expected, '%s:tokens-added-dropped-or-reordered' % want[0],
+                            full += strip_layout(nd.into_text().concrete()) if nd is not None else '�'
+                    got = full
+                    same = streams_match(full, exp_toks, exp_cmts, ncolon)
+                    if want[0] == 'C05':
+                        continue            # only panic freedom is asked for
+                    ctx.must_hold(same, '%s:tokens-added-dropped-or-reordered' % want[0],
                                   lambda mdl, mode=mode, got=got: dict(kind=tree[0], source=src_text, layout=mode, expected=expected, got=got,
                                                                        mode=model_int(mdl, c0.get('mode').disc), suppressed=model_bool(mdl, c0.get('break_suppressed')),
                                                                        chain_width=model_int(mdl, cw)))
-            name = 'conserve.%s[%s]' % (kind, strip_layout(src_text)[:24])
+            name = '%s.%s[%s]' % ('deep' if deep else 'conserve', kind, strip_layout(src_text)[:24])
             ob, ex = S.explore(name, 'convert_expr on the %s node parsed from %r: non-layout characters conserved for every context / configuration' % (kind, src_text[:60]),
                                body, bounds=dict(kind=kind, nodes=size_of(tree)))
             if ob.status.startswith('inconclusive'):
@@ -193,17 +234,66 @@ def explore(S, want=('C06',), per_kind=10, max_nodes=14):
             for lab, mdl, info in ex.violations:
                 found.append((lab, info))
         coverage[kind] = cov
-    S.validation['conservation_coverage'] = {k: dict(shapes=v['shapes'], decided=v['decided'], gaps=sorted(set(v['gaps']))[:3]) for k, v in coverage.items()}
+    S.validation['conservation_coverage' + ('_deep' if deep else '')] = {k: dict(shapes=v['shapes'], decided=v['decided'], gaps=sorted(set(v['gaps']))[:3]) for k, v in coverage.items()}
     S.validation['conservation_corpus_files'] = nfiles
     # the kinds listed in the committed coverage file must stay fully decided, otherwise the run is inconclusive
     exp_path = os.path.join(VERIF, 'units', 'conserve_expected.json')
-    if os.path.exists(exp_path):
+    if os.path.exists(exp_path) and not deep:
         expected = json.load(open(exp_path))
         for kind in expected:
             c = coverage.get(kind)
             if c is None or c['decided'] < c['shapes']:
                 S.inconclusive.append('conservation: construct %s is no longer fully decidable (%r)' % (kind, c))
     return found, coverage
+
+
+def find_subtree(tree, root, node):
+    """the parsed subtree that the abstract node `node` (somewhere below `root`) was built from"""
+    if root is node:
+        return tree
+    kind, x = tree
+    if isinstance(x, list):
+        for sub, c in zip(x, root.children):
+            r = find_subtree(sub, c, node)
+            if r is not None:
+                return r
+    return None
+
+
+def streams_match(full, exp_toks, exp_cmts, ncolon):
+    """`full` (non-layout characters of the output, comments included) consists of the expected tokens in order with the expected
+    comments, in their order, inserted somewhere; up to `ncolon` redundant dictionary colons may be missing"""
+    budget = [4000]
+
+    def rec(pos, ci, acc):
+        budget[0] -= 1
+        if budget[0] < 0:
+            return False
+        if ci == len(exp_cmts):
+            rest = acc + full[pos:]
+            return rest == exp_toks or (ncolon and 0 < len(exp_toks) - len(rest) <= ncolon and drop_colons(exp_toks, rest))
+        c = exp_cmts[ci]
+        j = full.find(c, pos)
+        while j >= 0:
+            if rec(j + len(c), ci + 1, acc + full[pos:j]):
+                return True
+            j = full.find(c, j + 1)
+        return False
+    return rec(0, 0, '')
+
+
+def drop_colons(expected, got):
+    """got equals expected with some ':' characters removed"""
+    i = 0
+    for ch in got:
+        while i < len(expected) and expected[i] != ch:
+            if expected[i] != ':':
+                return False
+            i += 1
+        if i >= len(expected):
+            return False
+        i += 1
+    return all(c == ':' for c in expected[i:])
 
 
 def confirm(S, info):
